@@ -172,8 +172,6 @@ Section G.
   Definition injective_on (k : nat) (M : list (list (nat * R))) : Prop :=
     forall z z' : list R, length z = k -> length z' = k -> matvec o M z = matvec o M z' -> z = z'.
 
-  Lemma vsel_length (y : list R) I : length (vsel o y I) = length I.
-  Proof. unfold vsel. apply map_length. Qed.
 
   (* the patch test: x* satisfies the free rows of A x = b and carries the prescribed boundary values x_D;
      then whatever solves the condensed system (A_II nonsingular) expands to x* *)
